@@ -578,7 +578,16 @@ func (st *State) fieldOf(s Struct, i int) Value {
 	if s.N == nil {
 		name = "anon." + s.T.Field(i).Name()
 	}
-	return st.symValue(ft, UF(name, SInt, s.H))
+	// a struct that is one of two structs (slice element at a symbolic index after an append): the
+	// field is the corresponding choice, so that what is known about either one is found
+	if h := st.norm(s.H); h.Op == "ite" && len(h.Args) == 3 {
+		a := st.fieldOf(Struct{T: s.T, N: s.N, H: h.Args[1]}, i)
+		b := st.fieldOf(Struct{T: s.T, N: s.N, H: h.Args[2]}, i)
+		if v, ok := st.iteValueDeep(h.Args[0], a, b); ok {
+			return v
+		}
+	}
+	return st.symValue(ft, st.norm(UF(name, SInt, s.H)))
 }
 
 func withField(s Struct, i int, v Value) Struct {
@@ -603,6 +612,18 @@ func (st *State) cellFor(h *Term, elem types.Type) (Cell, bool) {
 	if elem == nil {
 		return Cell{}, false
 	}
+	// a pointer that is one of two pointers (an element of a slice that was appended to, read at a
+	// symbolic index): the target is the corresponding choice between the two targets. Not cached:
+	// the targets may still change.
+	if h.Op == "ite" && len(h.Args) == 3 {
+		ca, oka := st.cellFor(h.Args[1], elem)
+		cb, okb := st.cellFor(h.Args[2], elem)
+		if oka && okb {
+			if v, ok := st.iteValueDeep(h.Args[0], ca.V, cb.V); ok {
+				return Cell{T: elem, V: v}, true
+			}
+		}
+	}
 	// lazily materialise the target of a symbolic pointer
 	var v Value
 	switch u := under(elem).(type) {
@@ -615,6 +636,27 @@ func (st *State) cellFor(h *Term, elem types.Type) (Cell, bool) {
 	c := Cell{T: elem, V: v}
 	st.heap[k] = c
 	return c, true
+}
+
+// iteValueDeep: iteValue, and structs field by field
+func (st *State) iteValueDeep(c *Term, a, b Value) (Value, bool) {
+	x, ok1 := a.(Struct)
+	y, ok2 := b.(Struct)
+	if !ok1 || !ok2 {
+		return iteValue(c, a, b)
+	}
+	if x.T.NumFields() != y.T.NumFields() {
+		return nil, false
+	}
+	n := Struct{T: x.T, N: x.N, F: map[int]Value{}}
+	for i := 0; i < x.T.NumFields(); i++ {
+		f, ok := st.iteValueDeep(c, st.fieldOf(x, i), st.fieldOf(y, i))
+		if !ok {
+			return nil, false
+		}
+		n.F[i] = f
+	}
+	return n, true
 }
 
 // backing array cell for a symbolic slice handle
